@@ -54,7 +54,7 @@ pub fn c02_verify_child(a: &Args) -> i32 {
         };
         let cfg = Cfg::parse(a.get("cfg").unwrap_or("")).unwrap_or(Cfg::small(8));
         let mut ctx = Ctx::new("C02", &["C02"], &a.scratch, "child");
-        let mut s = Session::<K> { dir: dir.clone(), name: a.get("name").unwrap_or("m").to_string(), db: None, map: None, extra: vec![], model: model.clone(), n_buckets: 0, budget: crate::session::STEP_BUDGET_BASE, updates_since_sync: 0, last_decoded: None, peak_live: model.len() };
+        let mut s = Session::<K>::attach(&dir, a.get("name").unwrap_or("m"), model.clone(), model.len());
         if let Err(e) = s.open(&cfg) {
             println!("open in a new process failed: {e}");
             return 1;
@@ -130,6 +130,19 @@ pub fn c02(a: &Args) -> Ctx {
                     };
                     s.extra.push(m2);
                     ctx.count("extra_handles_kept", 1);
+                }
+                if let Op::Reopen(_) = op {
+                    // every sixth drop happens right after the map was emptied (the last update before the close is
+                    // the delete of the last entry)
+                    if reopens % 6 == 4 {
+                        let present: Vec<usize> = (0..h.keys.len()).filter(|k| s.model.contains_key(&h.keys[*k])).collect();
+                        for k in present {
+                            if let Err(f) = s.apply(i, &Op::Del(k), &h.keys, mon, ctx, bits.next()) {
+                                return Some(ctx.classify(f));
+                            }
+                        }
+                        ctx.count("drops_of_an_emptied_map", 1);
+                    }
                 }
                 if let Op::Reopen(cfg) = op {
                     reopens += 1;
@@ -297,6 +310,24 @@ fn occupancy_patterns(n: u64) -> Vec<(&'static str, Vec<u64>)> {
     if n <= 4096 {
         v.push(("all", (0..n).collect()));
     }
+    // the word-wise bitmap scan: a last occupied bucket of every residue mod 64 before the final group of 8,
+    // plus one key in the final group (what lies between them is empty)
+    if n >= 128 {
+        const NAMES: [&str; 64] = ["r00+last", "r01+last", "r02+last", "r03+last", "r04+last", "r05+last", "r06+last", "r07+last", "r08+last", "r09+last", "r10+last", "r11+last", "r12+last", "r13+last", "r14+last", "r15+last", "r16+last", "r17+last", "r18+last", "r19+last", "r20+last", "r21+last", "r22+last", "r23+last", "r24+last", "r25+last", "r26+last", "r27+last", "r28+last", "r29+last", "r30+last", "r31+last", "r32+last", "r33+last", "r34+last", "r35+last", "r36+last", "r37+last", "r38+last", "r39+last", "r40+last", "r41+last", "r42+last", "r43+last", "r44+last", "r45+last", "r46+last", "r47+last", "r48+last", "r49+last", "r50+last", "r51+last", "r52+last", "r53+last", "r54+last", "r55+last", "r56+last", "r57+last", "r58+last", "r59+last", "r60+last", "r61+last", "r62+last", "r63+last"];
+        for r in 0..64u64 {
+            // largest bucket below the final group with this residue
+            let mut b = n - 9;
+            while b % 64 != r {
+                b -= 1;
+            }
+            let last = n - 1 - (r % 8);
+            v.push((NAMES[r as usize], vec![b, last]));
+            // and the same residue one word (64 buckets) earlier: the word scan then runs up to the bound
+            if b >= 64 {
+                v.push((NAMES[r as usize], vec![b - 64, last]));
+            }
+        }
+    }
     v.retain(|(nm, s)| *nm == "empty" || !s.is_empty());
     if n > 65536 {
         // a key for one given bucket of a 2^24-bucket table costs ~2^24 hash evaluations: only sparse patterns
@@ -349,6 +380,19 @@ fn c04_pattern_case(a: &Args, n: u64, pname: &str, buckets: &[u64], ctx: &mut Ct
     let h = History { kt: "bytes".into(), cfg: default_bufs(Buckets::Size(n)), keys, ops, origin: format!("c04 pattern n={n} occupied={pname}") };
     let mon = Mon { iterate_at_sync: true, ..Default::default() };
     let dir = a.scratch.join("c04p");
+    if a.get("as") == Some("C07") {
+        // the same history under other table sizes first
+        for other in [1u64, 64] {
+            let mut h2 = h.clone();
+            h2.cfg = default_bufs(Buckets::Size(other));
+            h2.origin = format!("{} replayed in a table of {other} buckets", h.origin);
+            let r2 = run_history::<DbBytes>(&dir, &h2, &mon, ctx);
+            ctx.evaluations += 1;
+            if let Some(st) = r2.stop {
+                return Some((st, h2));
+            }
+        }
+    }
     let res = run_history::<DbBytes>(&dir, &h, &mon, ctx);
     ctx.evaluations += 1;
     ctx.count(&format!("pattern.{pname}"), 1);
@@ -365,7 +409,10 @@ fn c04_pattern_case(a: &Args, n: u64, pname: &str, buckets: &[u64], ctx: &mut Ct
 }
 
 pub fn c04(a: &Args) -> Ctx {
-    let mut ctx = Ctx::new("C04", &["C04"], &a.replay_dir, &a.shard_name());
+    // `--as C07`: the occupancy patterns judged for C07 (the same keys must traverse alike whatever the table size):
+    // every pattern's key set is also put into tables of 1 and 64 buckets
+    let as_c07 = a.get("as") == Some("C07");
+    let mut ctx = if as_c07 { Ctx::new("C07", &["C07", "C04"], &a.replay_dir, &a.shard_name()) } else { Ctx::new("C04", &["C04"], &a.replay_dir, &a.shard_name()) };
     let mut rng = Rng::new(a.shard_seed() ^ 0xC04);
     let mut sizes: Vec<u64> = vec![1, 2, 4, 8, 16, 32, 64, 128, 256, 512, 1024, 2048, 4096, 8192, 16384, 32768, 65536];
     if a.thorough && a.get("default_table").is_some() {
